@@ -280,7 +280,8 @@ impl Prop for C03 {
             v
         } else {
             let shape = *r.pick(&[0u8, 0, 4, 5, 7, 11, 12, 13, 1, 8]);
-            let pos = !exact; // f64 mode keeps magnitudes inside [S/100, 100 S]
+            // f64 mode: signed grid values with exact zeros of either sign, except for the ratio-of-sums views
+            let pos = !exact && matches!(k, K::Rsi | K::MyRsi);
             gen_shape(r, shape, suf_len, s_scale, pos)
         };
         let mut suffix = suffix;
@@ -296,13 +297,14 @@ impl Prop for C03 {
             r.range(0, 300)
         };
         let shape = r.below(SHAPES.len()) as u8;
-        let base = gen_shape(r, shape, base_len, s_scale, !exact);
+        let f64_pos = !exact && matches!(k, K::Rsi | K::MyRsi);
+        let base = gen_shape(r, shape, base_len, s_scale, f64_pos);
         let spike = if exact { if s_scale > 1e6 { 1e3 } else { *r.pick(&[1e3, 1e6, 1e12]) } } else { 20.0 };
         let extra = if exact { 300 } else { 500 };
         let ca = FaultCfg::swarm(r, extra, spike);
         let cb = FaultCfg::swarm(r, extra, spike);
-        let (pa, fa) = apply_faults(r, &base, &ca, s_scale, !exact);
-        let (pb, fb) = apply_faults(r, &base, &cb, s_scale, !exact);
+        let (pa, fa) = apply_faults(r, &base, &ca, s_scale, f64_pos);
+        let (pb, fb) = apply_faults(r, &base, &cb, s_scale, f64_pos);
         let (mut pa, mut pb) = (pa, pb);
         quant(&mut pa);
         quant(&mut pb);
@@ -324,7 +326,7 @@ impl Prop for C03 {
                 2 => r.range(132_000, 150_000),
                 _ => r.range(1_050_000, 1_100_000),
             };
-            let g = Feed::Gen { seed: r.next_u64(), shape: r.below(SHAPES.len()) as u8, len, scale: s_scale, positive: !exact, quant: if exact { s_scale / 64.0 } else { 0.0 } };
+            let g = Feed::Gen { seed: r.next_u64(), shape: r.below(SHAPES.len()) as u8, len, scale: s_scale, positive: f64_pos, quant: if exact { s_scale / 64.0 } else { 0.0 } };
             sc.feeds.push(g);
             sc.stat("extra_prefix", len as u64);
         } else {
@@ -381,8 +383,11 @@ impl Prop for C03 {
             }
             let all = pa.iter().chain(pb.iter()).chain(suffix.iter());
             let mx = all.clone().fold(0.0f64, |m, x| m.max(x.abs()));
-            let mn = all.fold(f64::INFINITY, |m, x| m.min(x.abs()));
-            if mx > 0.0 && mn < mx / 1.0e4 {
+            // (exact zeros do not count: they carry no rounding error)
+            let mn = all.filter(|x| **x != 0.0).fold(f64::INFINITY, |m, x| m.min(x.abs()));
+            // only the ratio-of-sums views need a bounded dynamic range; for the others the tolerance is absolute
+            // (1e-6 of the largest magnitude), so small values are harmless
+            if spec.any(&|s| matches!(s.k, K::Rsi | K::MyRsi)) && mx > 0.0 && mn < mx / 1.0e4 {
                 out.invalid = Some("dynamic range above 1e4 in f64 mode".into());
                 return out;
             }
